@@ -93,12 +93,19 @@ def run_impl(cases, tier):
     return obs
 
 
+# what a client kind does, as events of Model/C14_Proto.v
+PROTO = {"key_nochan": "[SAuthOk]", "health_nochan": "[SAuthOk]", "key_chan": "[SAuthOk; SChan true]",
+         "key_shell": "[SAuthOk; SChan true; SReq true]", "health": "[SAuthOk; SChan true; SReq true]",
+         "key_2shell": "[SAuthOk; SChan true; SReq true; SChan true; SReq true]", "key_shell_twice": "[SAuthOk; SChan true; SReq true; SReq true]",
+         "badpw": "[SAuthFail]", "tcp_only": "[]", "tcp_reset": "[SClientClose]", "key_direct": "[SAuthOk; SChan false]",
+         "key_exec": "[SAuthOk; SChan true; SReq false]", "key_pty": "[SAuthOk; SChan true; SReq false]",
+         "key_env": "[SAuthOk; SChan true; SReq false]", "key_subsystem": "[SAuthOk; SChan true; SReq false]"}
 AUTH_OK = {"key_shell", "key_nochan", "key_chan", "key_2shell", "key_shell_twice", "health", "health_nochan", "tcp_only", "key_direct"}
 
 
 def judge(cases, obs, tier):
     oracle, model, errors = {}, {}, []
-    terms, idx = [], []
+    terms, idx, pterms, pidx = [], [], [], []
     for i, (c, o) in enumerate(zip(cases, obs)):
         if o is None or "panic" in o or "error" in o:
             errors.append("connsrv failed: %s" % (o,))
@@ -134,6 +141,10 @@ def judge(cases, obs, tier):
             elif ev[0] == "close" and served.get(ev[1]) and seq is not None:
                 served[ev[1]] = False
                 seq.append("(false, %d, true, %s)" % (ids[ev[1]], vf.cq_z(ob["count"])))
+            if ev[0] == "open" and before < mx and ev[2] in PROTO:
+                # a slot was free: is the connection of this client kind still up afterwards?  (protocol model)
+                pterms.append("(%s, %s)" % (PROTO[ev[2]], vf.cq_bool(ob["open"] - before == 1)))
+                pidx.append(i)
             if ob["count"] != ob["open"]:
                 oracle[i] = "event %d (%s): the server reports %d open connections, %d are actually open (max %d)" % (step, " ".join(ev), ob["count"], ob["open"], mx); ok = False; break
             if ob["count"] < 0 or ob["count"] > mx:
@@ -148,6 +159,10 @@ def judge(cases, obs, tier):
     errors += errs
     for f in fails:
         model[idx[f]] = "observed admissions / counter differ from the model's accounting"
+    fails, errs = vf.coq_eval_sharded("From DT Require Import Lib.Bytes Model.C14_Proto.", pterms, "proto_agree", per_shard=500, case_type="proto_case")
+    errors += errs
+    for f in fails:
+        model[pidx[f]] = "Coq model of what ends a connection differs from the server (a client kind's connection is up / gone against the model)"
     return {"oracle": oracle, "model": model, "errors": errors}
 
 
